@@ -48,6 +48,10 @@ def run(ctx: Ctx):
     from .common import dependency_footprints
 
     dependency_footprints(ctx)
+    from .common import public_values_assembled
+
+    public_values_assembled(ctx, "public-assembled", "_Slice", ("column_proportions", "row_proportions", "table_proportions", "column_percentages", "row_percentages", "table_percentages"))
+    public_values_assembled(ctx, "public-assembled", "_Strand", ("table_proportions", "table_percentages"))
 
 
 def table_proportions(ctx: Ctx):
